@@ -7,9 +7,10 @@
 (* "div0" (a zero divisor is evaluated: the expression has no value, a     *)
 (* tool must report it as unevaluated), or d = "ub" (an evaluated          *)
 (* intermediate leaves the int range, INT_MIN / -1, a shift count outside  *)
-(* 0..31, a negative left operand of <<, a left shift that overflows:      *)
-(* outside the property's domain).  && || ?: evaluate only what C++        *)
-(* evaluates.  All arithmetic is guarded with comparisons / division so    *)
+(* 0..31, a negative left operand of <<, a left shift that overflows, a    *)
+(* cast to char / short of a value that type cannot represent: outside the *)
+(* property's domain).  && || ?: evaluate only what C++ evaluates.  All    *)
+(* arithmetic is guarded with comparisons / division so    *)
 (* that TLC's 32-bit integers never overflow; / and % truncate toward zero *)
 (* (TLA+ \div and % floor).  Bit operations are defined on the two's       *)
 (* complement representation bit by bit.                                   *)
@@ -124,13 +125,14 @@ Un(op, a) ==
     [] op = "~" -> Ok(Not(a))
     [] op = "!" -> Ok(B2I(a = 0))
 
-\* (char) is a signed 8-bit type on the platform the oracle compiler targets: wrap to -128..127;
-\* (short) is 16 bit: wrap to -32768..32767 (modular conversion: C++20, and every two's complement compiler)
+\* (char) is a signed 8-bit and (short) a 16-bit type on the platform of the oracle compiler.  A value the
+\* target type cannot represent is converted in an implementation-defined way before C++20 (and g++ rejects
+\* some such conversions in constant expressions): outside the domain, like an int overflow.
 Cast(ty, a) ==
   CASE ty = "int"  -> Ok(a)
     [] ty = "bool" -> Ok(B2I(a # 0))
-    [] ty = "char" -> Ok((((Low(a) % 256) + 128) % 256) - 128)     \* 2^31 is a multiple of 256
-    [] ty = "short" -> Ok((((Low(a) % 65536) + 32768) % 65536) - 32768)
+    [] ty = "char" -> IF a >= -128 /\ a <= 127 THEN Ok(a) ELSE UB
+    [] ty = "short" -> IF a >= -32768 /\ a <= 32767 THEN Ok(a) ELSE UB
 
 \* combination of already evaluated operands: the first that is not "ok" in C++
 \* evaluation order decides, "ub" winning over "div0" (the expression is outside the domain)
